@@ -14,6 +14,7 @@ import (
 	"reflect"
 	"strconv"
 	"strings"
+	"sync"
 	"time"
 
 	"go.uber.org/zap"
@@ -95,16 +96,26 @@ type Spec struct {
 	Reenter bool
 }
 
-var reenterLogger = func() *zap.Logger {
-	cfg := zapcore.EncoderConfig{MessageKey: "m", LevelKey: "l", TimeKey: "t", NameKey: "n", CallerKey: "c", EncodeLevel: zapcore.CapitalLevelEncoder,
-		EncodeTime: zapcore.RFC3339NanoTimeEncoder, EncodeCaller: zapcore.ShortCallerEncoder, EncodeDuration: zapcore.StringDurationEncoder}
-	core := zapcore.NewTee(zapcore.NewCore(zapcore.NewJSONEncoder(cfg), zapcore.AddSync(io.Discard), zapcore.DebugLevel),
-		zapcore.NewCore(zapcore.NewConsoleEncoder(cfg), zapcore.AddSync(io.Discard), zapcore.DebugLevel))
-	return zap.New(core, zap.AddCaller()).Named("inner").With(zap.Reflect("ctx", map[string]int{"a": 1}), zap.String("s", "v"))
-}()
+// reenterLoggerOf builds the inner logger on first use, never at package initialisation: a defect in zap that makes
+// the construction panic must fail a property, not kill the test binary before any test has run.
+var (
+	reenterOnce sync.Once
+	reenterLg   *zap.Logger
+)
+
+func reenterLoggerOf() *zap.Logger {
+	reenterOnce.Do(func() {
+		cfg := zapcore.EncoderConfig{MessageKey: "m", LevelKey: "l", TimeKey: "t", NameKey: "n", CallerKey: "c", EncodeLevel: zapcore.CapitalLevelEncoder,
+			EncodeTime: zapcore.RFC3339NanoTimeEncoder, EncodeCaller: zapcore.ShortCallerEncoder, EncodeDuration: zapcore.StringDurationEncoder}
+		core := zapcore.NewTee(zapcore.NewCore(zapcore.NewJSONEncoder(cfg), zapcore.AddSync(io.Discard), zapcore.DebugLevel),
+			zapcore.NewCore(zapcore.NewConsoleEncoder(cfg), zapcore.AddSync(io.Discard), zapcore.DebugLevel))
+		reenterLg = zap.New(core, zap.AddCaller()).Named("inner").With(zap.Reflect("ctx", map[string]int{"a": 1}), zap.String("s", "v"))
+	})
+	return reenterLg
+}
 
 func reenterLog() {
-	reenterLogger.Warn("logged from inside a marshaler", zap.Error(errors.New("inner error")), zap.Reflect("r", []any{1, "<x>", nil}),
+	reenterLoggerOf().Warn("logged from inside a marshaler", zap.Error(errors.New("inner error")), zap.Reflect("r", []any{1, "<x>", nil}),
 		zap.Strings("ss", []string{"a", "b"}), zap.Duration("d", time.Second), zap.Namespace("ns"), zap.Int("i", 1), zap.Object("o", zapcore.ObjectMarshalerFunc(func(e zapcore.ObjectEncoder) error {
 			e.AddString("k", "v")
 			return nil
@@ -529,6 +540,8 @@ func (s *Spec) Field() zapcore.Field {
 					return zap.Stringers(k, ts)
 				case "nilptr":
 					return zap.Stringers(k, make([]*ptrStringer, len(ss)))
+				case "nilsafe":
+					return zap.Stringers(k, make([]*nilSafeStringer, len(ss)))
 				}
 			}
 		}
